@@ -519,8 +519,9 @@ func (srw *streamReaderWithConvert[T]) toStream() *stream[T] {
 	ret := newStream[T](5)
 
 	go func() {
+		finished := false
 		defer func() {
-			panicErr := recover()
+			panicErr := safe.PanicValue(recover(), finished) // (a panic(nil) of the source is a panic too)
 			if panicErr != nil {
 				e := safe.NewPanicErr(panicErr, debug.Stack()) // nolint: byted_returned_err_should_do_check
 
@@ -543,6 +544,7 @@ func (srw *streamReaderWithConvert[T]) toStream() *stream[T] {
 				break
 			}
 		}
+		finished = true
 	}()
 
 	return ret
@@ -614,8 +616,9 @@ func (p *parentStreamReader[T]) peek(idx int) (t T, err error) {
 	// 2. Initialize the 'next' field of this cpStreamElement with an empty cpStreamElement,
 	//    similar to the initialization in copyStreamReaders.
 	elem.once.Do(func() {
+		received := false
 		defer func() {
-			if panicErr := recover(); panicErr != nil {
+			if panicErr := safe.PanicValue(recover(), received); panicErr != nil {
 				// Reading the source panicked (a convert function of the user). Without an element
 				// the other children would find a zero chunk here and ErrRecvAfterClosed for ever:
 				// every child, the one that got here first included, finds the panic as an error
@@ -627,6 +630,7 @@ func (p *parentStreamReader[T]) peek(idx int) (t T, err error) {
 			}
 		}()
 		t, err = p.sr.Recv()
+		received = true
 		verifC19ChildRecv(p, err)
 		elem.item = streamItem[T]{chunk: t, err: err}
 		if err != io.EOF {
@@ -675,8 +679,9 @@ func (csr *childStreamReader[T]) toStream() *stream[T] {
 	ret := newStream[T](5)
 
 	go func() {
+		finished := false
 		defer func() {
-			panicErr := recover()
+			panicErr := safe.PanicValue(recover(), finished) // (a panic(nil) of the source is a panic too)
 			if panicErr != nil {
 				e := safe.NewPanicErr(panicErr, debug.Stack()) // nolint: byted_returned_err_should_do_check
 
@@ -699,6 +704,7 @@ func (csr *childStreamReader[T]) toStream() *stream[T] {
 				break
 			}
 		}
+		finished = true
 	}()
 
 	return ret
